@@ -134,9 +134,10 @@ def r12_2(ctx, rep, roles):
     for row in nl.rows:
         if row.exit != "backedge" or any(e[1] == gcid for e in row.calls()):
             continue        # rows of the later phases
-        nxt = [c for c in row.cond if c[0] == "variant" and c[1][0] == "call" and c[1][1].endswith("::next") and c[2] == "Some" and c[3]]
-        if not nxt:
-            continue
+        allnext = [c for c in row.cond if c[0] == "variant" and c[1][0] == "call" and c[1][1].endswith("::next")]
+        nxt = [c for c in allnext if c[2] == "Some" and c[3]]
+        if not nxt or len(allnext) != 1:
+            continue        # not a body path of the FIRST loop (the member loop): a later loop has the earlier ones exhausted
         n_body += 1
         others = [c for c in row.cond if c not in nxt]
         evaluated = bool(nl.calls(row, "update_node_liveness"))
